@@ -80,6 +80,12 @@ MISSED = {
     "C06-14": "(as C06-13) stations learned their number before they ever sent; `learn_then_send` added",
     "C14-17": "(harness extended on reading the seed's description) offsets were below one interval; `recurring[wide offsets]` added",
     "C14-18": "(as C14-17) nothing ever called core.stop(); `deferred_stop` added",
+    "C12-16": "C12 drove plain applications only; C04's `iocb_sync_abort` now runs under C12 too",
+    "C12-17": "no announcement ever arrived between an attempt and its retry; `announce_during_retry` added (writing it showed a "
+              "defect of the unchanged tree, repaired by 6172bb8)",
+    "C10-16": "the device under test never cached a client's I-Am; `known_client` added",
+    "C10-17": "the concurrent valid request always had another invoke ID; `same_id_clients` added",
+    "C10-18": "network-layer noise was unicast only (and type 0x12 in the thorough tier only); broadcast flag and more types added",
     "C10-5": "no frame carried a source network; `routed_noise` (garbage claiming a remote source, then a relayed valid request) added",
 }
 
